@@ -199,6 +199,21 @@ func (g *cGraph) linD(cv CV, d int) cgLin {
 	if d > 12 {
 		return cgLin{cv, 0}
 	}
+	// result of an expanded helper that returns the same expression on every path (func limit() int { return S + 1 })
+	if _, isPhi := cv.V.(*ssa.Phi); !isPhi {
+		if edges, ok := g.phiEdges(cv); ok && len(edges) > 0 {
+			first := g.linD(edges[0].Val, d+1)
+			same := true
+			for _, e := range edges[1:] {
+				if g.linD(e.Val, d+1) != first {
+					same = false
+				}
+			}
+			if same {
+				return first
+			}
+		}
+	}
 	switch x := cv.V.(type) {
 	case *ssa.Const:
 		if x.Value != nil && x.Value.Kind() == constant.Int {
